@@ -13,6 +13,7 @@ package http
 //@   modifies ghost.rpos[*], ghost.bufsrc[*], ghost.bufpos[*], ghost.bufn[*]
 //@   ensures [declared_length_is_buffer_length] result1 == nil && length > 0 ==> len(result0) == length
 //@   ensures [complete_or_error] result1 == nil && result0 != nil ==> off(result0) == 0 && ghost.bufn[arr(result0)] == len(result0)
+//@   ensures [bytes_come_from_this_reader] result1 == nil && result0 != nil ==> ghost.bufsrc[arr(result0)] == ival(body)
 
 // ServeHTTP hands a request to the service only if its body was read completely and without error
 // (C12) and the bytes actually received are within the limit (C13: the callee's precondition
@@ -24,6 +25,7 @@ package http
 //@   requires h != nil && h.Service != nil
 //@   stable h.Service, h.Service.MaxRequestLength
 //@   atcall Handle [body_read_completely_and_without_error] data == nil || (off(data) == 0 && ghost.bufn[arr(data)] == len(data))
+//@   atcall Handle [bytes_come_from_the_request_body_itself] data == nil || ghost.bufsrc[arr(data)] == ival(request.Body)
 //@   ensures [processed_only_within_limit] ghost.handled == old(ghost.handled) || len(ghost.handled_req) <= h.Service.MaxRequestLength
 //@   ensures [declared_too_large_is_refused_unprocessed] old(request.ContentLength) > old(h.Service.MaxRequestLength) ==> ghost.handled == old(ghost.handled)
 //@   ensures [declared_too_large_is_answered_413] old(request.ContentLength) > old(h.Service.MaxRequestLength) ==> ghost.http_status[ival(response)] == 413
